@@ -478,15 +478,20 @@ class AsciiRecordReader(BinaryRecordReader):
         self._stream.write("".join(self.data[i : i + io.DEFAULT_BUFFER_SIZE]))
 
     def rwInt(self, val):
+        self.byteCount += self._intSize
         return int(self._stream.read(self._intLength))
 
     def rwFloat(self, val):
+        self.byteCount += self._floatSize
         return float(self._stream.read(self._floatLength))
 
     def rwDouble(self, val):
+        # a double counts as two single precision words, like in the binary record
+        self.byteCount += self._floatSize
         return self.rwFloat(val)
 
     def rwString(self, val, length):
+        self.byteCount += length
         # read one space
         self._stream.read(1)
         return self._stream.read(length).rstrip()
